@@ -479,7 +479,32 @@ func c10Case(c *core.Ctx) *core.Result {
 					if w > 0 || h > 0 {
 						cfg = &document.ImageConfig{Size: &document.ImageSize{Width: w, Height: h, KeepAspectRatio: keep}}
 					}
-					data.SetImageFromData(nm, im.Data, cfg)
+					if r.Chance(1, 3) {
+						// the data set is a set of defaults merged with the caller's own pictures: the name is on both sides, the picture
+						// shown is the one merged in last (given as bytes or as a file), with its own size
+						defaults := document.NewTemplateData()
+						other := newImage()
+						if r.Bool() {
+							defaults.SetImageFromData(nm, other.Data, &document.ImageConfig{Size: &document.ImageSize{Width: 11, Height: 13}})
+						} else {
+							op := filepath.Join(c.WorkDir, fmt.Sprintf("c10-default-%d-%d.%s", c.Case, other.Serial, other.Format))
+							os.WriteFile(op, other.Data, 0644)
+							defaults.SetImage(nm, op, nil)
+						}
+						own := document.NewTemplateData()
+						if r.Bool() {
+							fp := filepath.Join(c.WorkDir, fmt.Sprintf("c10-own-%d-%d.%s", c.Case, im.Serial, im.Format))
+							os.WriteFile(fp, im.Data, 0644)
+							own.SetImage(nm, fp, cfg)
+						} else {
+							own.SetImageFromData(nm, im.Data, cfg)
+						}
+						defaults.Merge(own)
+						data.Merge(defaults)
+						res.Count("template_pictures_from_merged_data_sets", 1)
+					} else {
+						data.SetImageFromData(nm, im.Data, cfg)
+					}
 					ents = append(ents, &picEntry{serial: serial, data: im.Data, pxW: im.W, pxH: im.H, w: w, h: h, keep: keep, where: "template", via: "template-placeholder"})
 				}
 				return data, ents
